@@ -247,18 +247,22 @@ PROPS['C09'] = dict(
     level_text='Exploration against an oracle built from the definition: the penalised normal matrix H = sum_k w_k b_k b_k^T + sum_d lambda_d (I x D_p^T D_p x I) and '
                'right-hand side r are assembled point by point in long double (no GLAM/Kronecker shortcut, exact B-spline derivative-coefficient maps), and the returned '
                'float coefficients must satisfy the normal equations to a backward error of 8*2^-24(|H||c|+|r|) - a conditioning-independent test - for C++ fit, '
-               'fit with permuted listing order plus zero-weight entries, and the C wrapper; plus reproduction of spline-generated data at zero smoothing and of polynomials below the penalty order.',
+               'fit with permuted listing order plus zero-weight entries, and the C wrapper; plus reproduction of spline-generated data at zero smoothing and of polynomials below the penalty order. '
+               'A third pass fits tables with more than 2^16 coefficients (2-d ~250x270, 3-d ~40^3; flattened matrix indices beyond 2^32), where the same residual is applied matrix-free, dimension by dimension. '
+               'Smoothing and penalty order are passed in all four shared/per-dimension combinations.',
     level_note=NOTE_COMMON + '; problems whose oracle Cholesky pivot ratio is below 1e-9 are outside the quantifier ("well-posed") and skipped',
-    technique='runtime monitor: dense normal-equation oracle (backward-error test) under ASan/UBSan and in the production build',
+    technique='runtime monitor: dense (small tables) and matrix-free (large tables) normal-equation oracle (backward-error test) under ASan/UBSan and in the production build',
     targets=[T('h_fit.cpp', 'prod'), T('h_fit.cpp', 'asan')],
     passes=lambda tier, sc: [Pass('prod', 'h_fit.prod', 'C09', n(tier, 160, 2400, sc), stall_s=300),
-                             Pass('asan', 'h_fit.asan', 'C09', n(tier, 48, 400, sc), stall_s=600)],
+                             Pass('asan', 'h_fit.asan', 'C09', n(tier, 48, 400, sc), stall_s=600),
+                             # tables with more than 2^16 coefficients (flattened matrix indices beyond 2^32); matrix-free residual oracle
+                             Pass('large', 'h_fit.prod', 'C09big', n(tier, 3, 18, sc), chunk=1, stall_s=900)],
     level='exploration',
     rule='case = random fit problem (1-4 dims, orders 0-4, penalty orders 0..order, irregular strictly increasing knots, irregular/unsorted abscissae incl. on-knot, '
          'dense or 30-70% sparse grids, weights 1e-3..1e3, smoothing 0 or 1e-6..1e6, scalar or per-dimension arguments) x 3 entry-point variants; '
          'distinct_nontrivial counts distinct (problem, variant) fits on well-posed problems',
     assumptions=ASSUME_COMMON + ['bound K=8 on |Hc-r|/(2^-24(|H||c|+|r|)) (probe: worst 0.77 on 150 fits)'],
-    require={'any': {'problems-well-posed': 80, 'fits:C:splinetable_glamfit': 50, 'spline-reproduction-checks': 5, 'polynomial-reproduction-checks': 3}},
+    require={'any': {'problems-well-posed': 80, 'fits:C:splinetable_glamfit': 50, 'spline-reproduction-checks': 5, 'polynomial-reproduction-checks': 3, 'large:residual-checks': 3, 'argument-form:smoothing-shared,penalty-order-per-dimension': 8, 'argument-form:smoothing-per-dimension,penalty-order-shared': 8}},
 )
 PROPS['C10'] = dict(
     level_text='Exploration: monotonic fits of noisy, decreasing, oscillating, constant and random data in 1-3 dimensions for every choice of monotonic dimension; '
